@@ -33,7 +33,8 @@ LayerEnc, LayerDec = Nom("EVQECircuitLayerEncoder", "unit"), Nom("EVQECircuitLay
 EvqeEnc, EvqeDec = Nom("EVQEPopulationJSONEncoder", "unit"), Nom("EVQEPopulationJSONDecoder", "unit")
 Num = Nom("num", "Json.num")  # a Python number (int or float token)
 ComplexO = Nom("complex", "(Json.num * Json.num)%type")
-QuasiO = Nom("QuasiDistribution", "(list (pyval * pyval) * pyval * pyval)%type")  # (data items, shots, stddev_upper_bound)
+QuasiO = Nom("QuasiDistribution", "(list (pyval * pyval) * pyval * pyval * pyval)%type")  # (data items, shots, stddev_upper_bound, _num_bits)
+BinProbs = Nom("BinaryProbabilities", "(list string)%type")  # binary_probabilities(): only its keys are used (the rendered outcomes, in order)
 CircuitO = Nom("QuantumCircuit", "string")  # opaque token: base64(qpy(circuit))
 BytesIOT, BytesT = Nom("BytesIO", "string"), Nom("bytes", "string")  # opaque: the bytes are the token
 SolverResultObject = Nom("SolverResultObject", "pyval")  # the fresh result object parse_evolving_ansatz_result fills in
@@ -76,7 +77,7 @@ RESULT_FIELDS = ["eigenvalue", "aux_operators_evaluated", "eigenstate", "best_in
                  "population_evaluation_results", "initial_state_circuit"]
 ATTRS.update(fields("EvolvingAnsatzMinimumEigensolverResult", 8, RESULT_FIELDS))
 ATTRS.update({("complex", "real"): ("fst {0}", Num), ("complex", "imag"): ("snd {0}", Num),
-              ("QuasiDistribution", "shots"): ("snd (fst {0})", PyVal), ("QuasiDistribution", "stddev_upper_bound"): ("snd {0}", PyVal)})
+              ("QuasiDistribution", "shots"): ("snd (fst (fst {0}))", PyVal), ("QuasiDistribution", "stddev_upper_bound"): ("snd (fst {0})", PyVal)})
 
 NARROW = {
     ("pyval", "complex"): ("view_complex {0}", ComplexO),
@@ -124,9 +125,12 @@ Definition view_obj8 (c : cls) (v : pyval) : option (pyval * pyval * pyval * pyv
   | _ => None
   end.
 Definition view_complex (v : pyval) : option (Json.num * Json.num) := match v with PComplex re im => Some (re, im) | _ => None end.
-(* a QuasiDistribution: its items, shots, stddev_upper_bound *)
-Definition view_quasi (v : pyval) : option (list (pyval * pyval) * pyval * pyval) :=
-  match v with PObj CQuasiDist [PDict data; shots; bound] => Some (data, shots, bound) | _ => None end.
+(* a QuasiDistribution: its items, shots, stddev_upper_bound, _num_bits (the width binary_probabilities() pads to) *)
+Definition view_quasi (v : pyval) : option (list (pyval * pyval) * pyval * pyval * pyval) :=
+  match v with PObj CQuasiDist [PDict data; shots; bound; width] => Some (data, shots, bound, width) | _ => None end.
+(* o.binary_probabilities() (qiskit): the rendered outcomes format(key, "b").zfill(_num_bits), in the order of the items *)
+Definition quasi_bp (q : list (pyval * pyval) * pyval * pyval * pyval) : result (list string) :=
+  do w <- as_int (snd q); quasi_binary_keys (fst (fst (fst q))) w.
 Definition view_circuit (v : pyval) : option string := match v with PCircuit tok => Some tok | _ => None end.
 (* isinstance as a boolean (on an attribute expression, where nothing is narrowed) *)
 Definition is_complex (v : pyval) : bool := match view_complex v with Some _ => true | None => false end.
@@ -181,6 +185,7 @@ SPEC = dict(
         (repr(List(PyVal)), "pyval"): "PList {0}",
         (repr(Items), "pyval"): "items_value {0}",
         ("none", "pyval"): "PNone",
+        ("Z", "pyval"): "PInt {0}",
         ("string", "pyval"): "PStr {0}",
         (repr(List(List(PyVal))), "pyval"): "PList (map PList {0})",
         ("num", "pyval"): "PNum {0}",
@@ -206,14 +211,17 @@ SPEC = dict(
     compares={("Is", "pyval", "none"): "is_none {0}", ("Eq", "pyval", "string"): "py_eqb {0} (PStr {1})"},
     methods={
         ("pyval", "items"): dict(code="pv_items {0}", ty=Items, params=[], partial=True),
-        ("QuasiDistribution", "items"): dict(code="fst (fst {0})", ty=Items, params=[]),
+        ("QuasiDistribution", "items"): dict(code="fst (fst (fst {0}))", ty=Items, params=[]),
+        ("QuasiDistribution", "binary_probabilities"): dict(code="quasi_bp {0}", ty=BinProbs, params=[], partial=True),
+        ("BinaryProbabilities", "keys"): dict(code="{0}", ty=List(STR), params=[]),
         ("BytesIO", "getvalue"): dict(code="{0}", ty=BytesT, params=[]),
         ("bytes", "decode"): dict(code="{0}", ty=STR, params=[("encoding", STR)]),
         (repr(SetT(STR)), "union"): dict(code="({0} ++ {other})%list", ty=SetT(STR), params=[("other", SetT(STR))]),
     },
     funcs={
         "tuple": ctor("py_tuple {x}", ["x"]),
-        "list": ctor("py_list {x}", ["x"]),
+        "list": dict(overloads=[ctor("py_list {x}", ["x"]),
+                                dict(code="{x}", ty=List(STR), params=[("x", List(STR))])]),  # list(d.keys()) of rendered outcomes
         "dict": ctor("py_dict {x}", ["x"]),
         "Machine": ctor("mk_machine {name}", ["name"]),
         "Operation": ctor("mk_operation {name} {job_name} {machine} {processing_duration}", ["name", "job_name", "machine", "processing_duration"]),
@@ -281,13 +289,17 @@ SPEC = dict(
              funcs={"BytesIO": dict(code="EmptyString", ty=BytesIOT, params=[])},
              locals={"eigenvalue": PyVal, "aux_operators_evaluated": PyVal, "population_evaluation_results": PyVal}),
         parse("EvolvingAnsatzMinimumEigensolverResultJSONDecoder", "parse_complex_number", "parse_complex_number", RESULT),
-        parse("EvolvingAnsatzMinimumEigensolverResultJSONDecoder", "parse_quasidistribution", "parse_quasidistribution", RESULT),
+        # parse_quasidistribution is NOT translated since fix 110f6bc: `format(key, f"0{num_bits}b")` has a computed format spec
+        # (outside the subset, e_JoinedStr fails closed).  The hook's call of it stands for the model's function
+        # (parse_quasidistribution head_flags); that function is tied to /repo by the C18 correspondence only.
         dict(parse("EvolvingAnsatzMinimumEigensolverResultJSONDecoder", "parse_quantum_circuit", "parse_quantum_circuit", RESULT),
              funcs={"BytesIO": dict(code="{initial_bytes}", ty=BytesIOT, params=[("initial_bytes", BytesT)])}),
         parse("EvolvingAnsatzMinimumEigensolverResultJSONDecoder", "parse_base_population_evaluation", "parse_base_population_evaluation", RESULT),
         dict(parse("EvolvingAnsatzMinimumEigensolverResultJSONDecoder", "parse_evolving_ansatz_result", "parse_evolving_ansatz_result", RESULT),
              local_objects=["result"]),
         dict(parse("EvolvingAnsatzMinimumEigensolverResultJSONDecoder", "object_hook", "result_hook", RESULT),
-             self_attrs={"_evqe_population_decoder": ("tt", EvqeDec)}),
+             self_attrs={"_evqe_population_decoder": ("tt", EvqeDec)},
+             self_methods={"parse_quasidistribution": dict(code="parse_quasidistribution head_flags {object_dict}", ty=PyVal,
+                                                           params=[("object_dict", SDict)], partial=True)}),
     ],
 )
